@@ -152,12 +152,12 @@ fn check_exit_status(ctx: &Ctx, judgements: &[DocJudgement], out: &mut Vec<Viola
     }
     let unparsable = sc.docs.iter().any(|d| d.raw.is_some());
     let missing = !sc.cli.missing_paths.is_empty();
-    let shell_missing = sc.cli.shell.as_deref().map(|s| !std::path::Path::new(s).exists()).unwrap_or(false)
+    let shell_missing = sc.cli.shell.as_deref().map(|s| !shell_exists(s)).unwrap_or(false)
         || (sc.cli.shell.is_none()
             && sc
                 .docs
                 .iter()
-                .any(|d| d.main && d.shell.as_deref().map(|s| !std::path::Path::new(s).exists()).unwrap_or(false)));
+                .any(|d| d.main && d.shell.as_deref().map(|s| !shell_exists(s)).unwrap_or(false)));
     // a prepend/append path that does not exist
     let dangling = sc.docs.iter().filter(|d| d.main).any(|d| {
         let dir = match d.path.rfind('/') {
@@ -291,7 +291,19 @@ fn check_env_cleanup(ctx: &Ctx, judgements: &[DocJudgement], out: &mut Vec<Viola
     let obs = ctx.obs;
     let Some(cli) = &obs.cli else { return };
     let tmp_root = canon(&cli.tmp_root);
-    let shell = canon(sc.cli.shell.as_deref().unwrap_or("/bin/bash"));
+    let resolve = |s: &str| -> String {
+        if s.contains('/') {
+            canon(s)
+        } else {
+            for dir in ["/usr/local/bin", "/usr/bin", "/bin"] {
+                let p = format!("{}/{}", dir, s);
+                if std::path::Path::new(&p).exists() {
+                    return canon(&p);
+                }
+            }
+            s.to_string()
+        }
+    };
     let mut cwd_of_doc: BTreeMap<usize, String> = BTreeMap::new();
     for (d, j) in obs.docs.iter().zip(judgements.iter()) {
         let main = &sc.docs[d.doc];
@@ -303,6 +315,7 @@ fn check_env_cleanup(ctx: &Ctx, judgements: &[DocJudgement], out: &mut Vec<Viola
             None => (".".to_string(), seen_path.clone()),
         };
         let testdir = canon(&dir);
+        let shell = resolve(sc.cli.shell.as_deref().or(main.shell.as_deref()).unwrap_or("/bin/bash"));
         let mut pids_done = BTreeSet::new();
         let mut first_env: Option<BTreeMap<String, String>> = None;
         for (k, tj) in j.tests.iter().enumerate() {
